@@ -15,7 +15,7 @@ RULE = ("real binary as a subprocess vs the Lean CLI model: address / export / p
         "non-trivial = distinct (command, account, input) with a non-default selector or passphrase")
 EXHAUSTIVE_SWEEPS = {"quick": ["every sub-command x {default, index, path} selector x {flag, env}"], "thorough": ["every sub-command x {default, index, path} selector x {flag, env}"]}
 ASSUMPTIONS = ["clap's tokenisation / env lookup / conflicts_with are contract-level (mapping in vlib/cli.py)"]
-PASS = ["", "TREZOR", "pässwörd", "ｐａｓｓ", "한글 é", "a b  c", "-dash", "=eq", "😀"]
+PASS = ["", "TREZOR", "pässwörd", "ｐａｓｓ", "한글 é", "a b  c", "-dash", "=eq", "😀", " lead", "trail ", " ", "\t", "nl\n", "\u00a0x\u00a0", "  both  ", "\u3000"]
 
 
 def rand_sel(rng):
